@@ -248,8 +248,27 @@ pub fn generate(rng: &mut Rng, thorough: bool) -> Workload {
         _ => rng.range(3, if thorough { 7 } else { 5 }) as usize,
     };
     let ndata = rng.below(4) as usize;
-    let names = ["a.clinc", "b.clinc", "c.clib", "sub/d.clinc", "e.clinc", "sub/f.clib", "g.clinc"];
-    let dnames = ["data.bin", "blob.hex", "tree.sexp", "sub/more.dat"];
+    // two name pools: unrelated names, and names one of which is a path suffix of another
+    // (sub/a.clinc vs a.clinc), drawn in random order so the longer one may be met first
+    let suffixy = rng.chance(1, 2);
+    let mut names: Vec<&str> = if suffixy {
+        vec!["a.clinc", "sub/a.clinc", "lib/sub/a.clinc", "b.clinc", "sub/b.clinc", "c.clib", "x/c.clib"]
+    } else {
+        vec!["a.clinc", "b.clinc", "c.clib", "sub/d.clinc", "e.clinc", "sub/f.clib", "g.clinc"]
+    };
+    let mut dnames: Vec<&str> = if suffixy {
+        vec!["data.bin", "sub/data.bin", "blob.hex", "x/blob.hex"]
+    } else {
+        vec!["data.bin", "blob.hex", "tree.sexp", "sub/more.dat"]
+    };
+    for i in (1..names.len()).rev() {
+        let j = rng.below(i as u64 + 1) as usize;
+        names.swap(i, j);
+    }
+    for i in (1..dnames.len()).rev() {
+        let j = rng.below(i as u64 + 1) as usize;
+        dnames.swap(i, j);
+    }
     let mut datas = Vec::new();
     for d in 0..ndata {
         let kind = rng.below(3) as u8;
